@@ -339,7 +339,8 @@ def check_static(case, ctx):
 @st.composite
 def shell_case(draw, models=STATIC_MODELS, small=True):
     model = draw(st.sampled_from(list(models)))
-    alphadeg = draw(st.one_of(st.just(0.), gen.fl(0.5, 60.)))
+    # cylinders, ordinary cones and nearly cylindrical cones (the semi-vertex angle may be any value in [0, 60))
+    alphadeg = draw(st.one_of(st.just(0.), gen.fl(0.5, 60.), gen.fl(0.5, 60.), gen.logfl(1e-3, 0.5)))
     r2 = draw(gen.fl(50., 500.))
     L = draw(gen.fl(0.3, 3.)) * r2
     a = np.deg2rad(alphadeg)
